@@ -44,7 +44,7 @@ def bootstrap_repo(stubs=("sgio", "iscsi")):
             del sys.modules[k]
     for name in ("sgio", "iscsi"):
         if name in stubs:
-            spec = importlib.util.spec_from_file_location(name, str(STUBS / (name + ".py")))
+            spec = importlib.util.spec_from_file_location(name, str(STUBS / ("pkg_" + name) / (name + ".py")))
             mod = importlib.util.module_from_spec(spec)
             spec.loader.exec_module(mod)
             sys.modules[name] = mod
